@@ -274,7 +274,7 @@ pub(crate) fn sim_load(addr: usize, ord: Option<Ordering>) -> Access {
     let hi = s.mem.segs[seg].locs[loc].len() - 1;
     let mut idx = hi;
     let mut stale = 0u64;
-    if s.cfg.weak && hi > lo {
+    if s.cfg.weak && hi > lo && s.frozen_by != Some(me) {
         let p = s.cfg.stale_ppm;
         if s.decide_p(K_STALE, p) {
             let dom = ((hi - lo) as u32).min(3);
